@@ -75,3 +75,37 @@ IDENTITY_REQS = [
         {'id': 'D-nonidentity', 'what': 'D = identity is refused', 'alts': IDENT_ALTS, 'cover': ['self.D'], 'pure': ['self.D']},
     ]),
 ]
+
+
+# decoders: acceptance gated by the checked constructors and by identity / zero exclusion (draft-08 octets_to_*)
+DECODER_REQS = [
+    ('bbsplus::keys::BBSplusPublicKey::from_bytes', [
+        {'id': 'point-valid', 'what': 'G2 point validity (curve, subgroup) gates acceptance', 'gate_callee': ['is_none', 'is_some'], 'cover': ['bytes']},
+        {'id': 'pk-nonidentity', 'what': 'identity public key refused', 'alts': IDENT_ALTS, 'cover': ['bytes']},
+    ]),
+    ('bbsplus::keys::BBSplusPublicKey::from_coordinates', [
+        {'id': 'point-valid', 'what': 'G2 point validity gates acceptance', 'gate_callee': ['is_none', 'is_some'], 'cover': ['x', 'y']},
+        {'id': 'pk-nonidentity', 'what': 'identity public key refused', 'alts': IDENT_ALTS, 'cover': ['x', 'y']},
+    ]),
+    ('bbsplus::keys::BBSplusSecretKey::from_bytes', [
+        {'id': 'scalar-range', 'what': 'scalar < r gates acceptance', 'gate_callee': ['is_none', 'is_some'], 'cover': ['bytes']},
+    ]),
+    ('bbsplus::signature::BBSplusSignature::from_bytes', [
+        {'id': 'point-valid', 'what': 'G1 point validity gates acceptance', 'gate_callee': ['is_none', 'is_some'], 'cover': ['data']},
+        {'id': 'A-nonidentity', 'what': 'A = identity refused', 'alts': IDENT_ALTS, 'cover': ['data']},
+        {'id': 'e-nonzero', 'what': 'e = 0 refused', 'alts': [{'gate_callee': ['is_zero']}, {'gate_callee': ['PartialEq'], 'const': ['ZERO']}], 'cover': ['data']},
+    ]),
+    ('bbsplus::proof::BBSplusPoKSignature::from_bytes', [
+        {'id': 'point-valid', 'what': 'G1 point validity gates acceptance', 'gate_callee': ['is_none', 'is_some'], 'cover': ['bytes']},
+        {'id': 'points-nonidentity', 'what': 'identity proof points refused', 'alts': IDENT_ALTS, 'cover': ['bytes']},
+    ]),
+    ('bbsplus::proof::BBSplusZKPoK::from_bytes', [
+        {'id': 'scalar-range', 'what': 'scalar < r gates acceptance', 'gate_callee': ['is_none', 'is_some'], 'cover': ['bytes']},
+    ]),
+    ('bbsplus::commitment::BBSplusCommitment::from_bytes', [
+        {'id': 'point-valid', 'what': 'G1 point validity gates acceptance', 'gate_callee': ['is_none', 'is_some'], 'cover': ['bytes']},
+    ]),
+    ('bbsplus::commitment::BlindFactor::from_bytes', [
+        {'id': 'scalar-range', 'what': 'scalar < r gates acceptance', 'gate_callee': ['is_none', 'is_some'], 'cover': ['bytes']},
+    ]),
+]
